@@ -122,6 +122,31 @@ fn pinned(ctx: &mut Ctx) {
     if hex::encode(raw.to_bytes()) != SNAP {
         ctx.violation(0, "signed-content-or-field-layout-changed", json!({"hand_encoded": hex::encode(raw.to_bytes())}));
     }
+    // an entry WITH content: the signed bytes are id ++ len(be) ++ hash ++ timestamp(be); the crate's
+    // signature must equal the one made over the hand-written layout (ed25519 is deterministic), and
+    // the hand-signed entry must verify
+    {
+        let hash = iroh_blobs::Hash::new(b"pinned content");
+        let len = 14u64 + (1u64 << 33); // a length whose big-endian and little-endian bytes differ everywhere
+        let ts = 1_700_000_000_123_456u64;
+        let real = SignedEntry::from_parts(&namespace, &author, b"pinned/key", iroh_docs::Record::new(hash, len, ts));
+        let mut raw = RawEntry { author_sig: [0; 64], namespace_sig: [0; 64], id: vec![], len, hash: *hash.as_bytes(), ts };
+        raw.id.extend_from_slice(namespace.id().as_bytes());
+        raw.id.extend_from_slice(author.id().as_bytes());
+        raw.id.extend_from_slice(b"pinned/key");
+        raw.sign(&namespace, &author);
+        ctx.count("pinned_encoding_checks", 1);
+        if postcard::to_stdvec(&real).unwrap() != raw.to_bytes() {
+            ctx.violation(0, "signed-content-or-field-layout-changed", json!({"entry": "non-empty", "crate": hex::encode(postcard::to_stdvec(&real).unwrap()), "hand_encoded": hex::encode(raw.to_bytes())}));
+        }
+        match raw.into_entry() {
+            Ok(e) if e.verify(&()).is_ok() => {}
+            _ => ctx.violation(0, "reference-signed-entry-does-not-verify", json!({"entry": "non-empty"})),
+        }
+        if real.entry().to_vec() != raw.signed_bytes() {
+            ctx.violation(0, "canonical-signing-bytes-changed", json!({"crate": hex::encode(real.entry().to_vec()), "reference": hex::encode(raw.signed_bytes())}));
+        }
+    }
     if hex::encode(postcard::to_stdvec(&author).unwrap()) != format!("20{}", "a1".repeat(32)) {
         ctx.violation(0, "pinned-author-encoding-changed", json!({}));
     }
